@@ -48,7 +48,8 @@ PROPS = {
                 "deadline = now+ttl, ready at now+delay after nack, deadline + extend_by after extend); non-trivial = a sub-second delay or extension took effect",
         "assumptions": [],
         "guards": [],
-        "parts": [{"engine": "front", "test": "TestProp_C05_TransportParity", "quick": 1600, "thorough": 120000, "shards": {"quick": 4}}],
+        "parts": [{"engine": "front", "test": "TestProp_C05_TransportParity", "quick": 1600, "thorough": 120000, "shards": {"quick": 4}},
+                  {"engine": "front", "test": "TestProp_C05_PublishTarget", "quick": 400, "thorough": 20000, "shards": {"quick": 4}}],
     },
     "C06": {
         "rule": "outbound wiring tier (real `hookaido run` process per case, wall clock): generated config text with egress allow/deny lists over IPs, CIDRs and host names, "
